@@ -82,6 +82,36 @@ func (c *canonRunner) Step(line string) string {
 			b.Set(idx.ValidatorID(Atou(kv[0])), pos.Weight(Atou(kv[1])))
 		}
 		return c.show(b.Build())
+	case "buildraw", "array":
+		// buildraw: the builder map is filled directly (b[id] = w, zero entries stay in the map);
+		// array: ArrayToValidators with the pairs in this order
+		var ids []idx.ValidatorID
+		var ws []pos.Weight
+		b := pos.ValidatorsBuilder{}
+		for _, p := range f[1:] {
+			kv := strings.Split(p, ":")
+			ids = append(ids, idx.ValidatorID(Atou(kv[0])))
+			ws = append(ws, pos.Weight(Atou(kv[1])))
+			b[idx.ValidatorID(Atou(kv[0]))] = pos.Weight(Atou(kv[1]))
+		}
+		if f[0] == "array" {
+			return c.show(pos.ArrayToValidators(ids, ws))
+		}
+		vv := b.Build()
+		res := c.show(vv)
+		// Len / Exists / Get / Copy / Builder().Build() see the same set
+		cp := vv.Copy()
+		rb := vv.Builder().Build()
+		if int(vv.Len()) != len(vv.SortedIDs()) || cp.String() != vv.String() || rb.String() != vv.String() {
+			res += " INCONSISTENT-ACCESSORS"
+		}
+		for _, id := range ids {
+			if vv.Exists(id) != (vv.Get(id) != 0) {
+				res += " INCONSISTENT-EXISTS"
+				break
+			}
+		}
+		return res
 	case "big":
 		b := pos.NewBigBuilder()
 		for _, p := range f[1:] {
@@ -295,6 +325,9 @@ func genCanon(r *Rand, n int, tier string, w *bufio.Writer) {
 				sh[a] = order[b]
 			}
 			fmt.Fprintf(w, "build %s\n", strings.Join(history(r, final, sh, noise), " "))
+			if r.Chance(1, 3) {
+				fmt.Fprintf(w, "%s %s\n", []string{"buildraw", "array"}[r.Intn(2)], strings.Join(history(r, final, sh, noise), " "))
+			}
 		}
 		fmt.Fprintf(w, "decode last\n")
 		for i := r.Intn(4); i > 0; i-- {
